@@ -330,7 +330,7 @@ func c15(r *ev.Run) {
 			r.Fail("suite-fidelity", "token-grid "+name+": "+bad, c, bad, obs)
 		}
 	}
-	// (5) edit neighbourhood: every single-character substitution (47-character alphabet), deletion, insertion and adjacent
+	// (5) edit neighbourhood: every single-BYTE substitution (all 256 values), insertion (47-character alphabet), deletion and adjacent
 	// transposition of a set of well-formed strings - one wrong character anywhere must be noticed, never approximated
 	var en atomic.Int64
 	bases := []string{"OCRA-1:HOTP-SHA1-6:QN08", "OCRA-1:HOTP-SHA256-8:C-QA10-PSHA256-S064-T1M", "OCRA-1:HOTP-SHA512-10:QH10-T48H", "OCRA-1:HOTP-SHA1-7:C-QN10-PSHA1", "OCRA-1:HOTP-SHA512-4:QA08-S128-T30S", "ocra-1:hotp-sha256-9:c-qh08-psha512-s512-t5m"}
@@ -348,6 +348,17 @@ func c15(r *ev.Run) {
 			en.Add(1)
 			if bad != "" {
 				r.Fail("suite-fidelity", "edit-neighbour "+name+": "+bad, c, bad, obs)
+			}
+		}
+		// substitution by EVERY byte value and by the non-ASCII letters that Unicode case mapping folds onto ASCII
+		// ones (U+017F long s -> S, U+0131 dotless i -> I, U+212A Kelvin sign -> k)
+		for i := 0; i < len(b); i++ {
+			for v := 0; v < 256; v++ {
+				try1(b[:i] + string([]byte{byte(v)}) + b[i+1:])
+			}
+			for _, u := range []string{"\u017f", "\u0131", "\u212a", "\u0130", "\uff11", "\u0661"} {
+				try1(b[:i] + u + b[i+1:])
+				try1(b[:i] + u + b[i:])
 			}
 		}
 		for i := 0; i <= len(b); i++ {
